@@ -75,6 +75,17 @@ ASSUME Base \in 0..4 /\ \A p \in Precisions \cup TgUPrecisions : p \in 0..(Base 
 (* The reader rejects an alternate whose LAST branch is empty ("{ a / }"), *)
 (* so expressible alternates have a non-empty last branch; other branches  *)
 (* may be empty ("{ / a }").                                               *)
+(*                                                                         *)
+(* What a TOKEN is.  A token is any non-empty string free of the format's  *)
+(* delimiters: the blank (U+0020, the one character that separates the     *)
+(* lexemes of a line), the braces and the slash as lexemes of their own,   *)
+(* the line break, and a parenthesis pair at the end of the line (the id). *)
+(* Nothing else delimits: a no-break space ("10<U+00A0>000"), a tab, an    *)
+(* ideographic or thin space INSIDE a token is part of that token, with or *)
+(* without alternates on the line (write_trn puts one blank after every    *)
+(* lexeme; the reader cuts lexemes at blanks only).  The harness therefore *)
+(* maps the abstract tokens 1..NTok also to strings with such interior     *)
+(* white space; they must come back as ONE token each.                     *)
 (***************************************************************************)
 RECURSIVE SeqsExact(_, _), ItemsExact(_, _), Branches(_, _, _)
 \* item sequences with exactly k leaves, nesting <= d
@@ -91,10 +102,16 @@ Branches(d, j, m) ==
         THEN UNION {{<<b>> \o rest : b \in SeqsExact(d, i), rest \in Branches(d, j - i, m - 1)} : i \in 0..(j - 1)}
         ELSE {})
 TrnU(k) == UNION {SeqsExact(TrnDepth, j) : j \in 0..k}
+\* Transcripts beyond the generic bounds above (wider / deeper alternates than TrnBranch / TrnDepth / TrnLeaves allow
+\* at a cost TLC can bear), given explicitly.  Empty here; a cfg substitutes a set of transcripts for it
+\* (`TrnExtra <- TrnExtraNested`, TranscriptsMC).  They are cases like all the others: same machine, same invariants,
+\* same export; each is met as a file of its own and as the second line of a two-line file.
+TrnExtra == {}
 TrnCollections ==      \* (guards: TLC evaluates constant definitions eagerly, one family per run)
   IF "trn" \notin Fams THEN {}
   ELSE {<<t>> : t \in TrnU(TrnLeaves)}
        \cup UNION {[1..m -> TrnU(TrnLeavesColl)] : m \in 2..TrnUtts}
+       \cup {<<t>> : t \in TrnExtra} \cup {<<<<Tok(1)>>, t>> : t \in TrnExtra}
 
 (***************************************************************************)
 (* trn at character level: the utterance id                                *)
@@ -478,7 +495,10 @@ TrnDone == fam = "trn" /\ (err \/ ln > Len(cs))
 \* trn: reading what was written gives back the collection, whatever the nesting
 TrnRoundTrip == TrnDone => (~err /\ parsed = cs)
 TrnNoDanglingAlt == (Reading /\ pos = Len(Line) + 1) => stack = <<>>
-TrnStackBounded == fam = "trn" => Len(stack) <= TrnDepth
+\* (never more alternates open than the line nests; TrnDepth bounds the enumerated transcripts, those of TrnExtra
+\* carry their own depth)
+TrnStackBounded == fam = "trn" => Len(stack) <= (IF ln \in 1..Len(cs) THEN Depth(cs[ln]) ELSE 0)
+TrnDepthBounded == (fam = "trn" /\ \A i \in 1..Len(cs) : cs[i] \notin TrnExtra) => \A i \in 1..Len(cs) : Depth(cs[i]) <= TrnDepth
 \* the lexeme stream carries the tokens in reading order and is bracketed to the nesting depth
 TrnLexShape ==
   (fam = "trn" /\ Ready /\ ln <= Len(cs) /\ pos = 1) =>
